@@ -55,7 +55,7 @@ BadEvent(CT, ev) ==
                 \* related only through the implicit rule "every type is below the top type" (the implementation knows the top type
                 \* only where it is declared as a supertype)
                 ELSE IF \A r \in Related(CT, ev.T, Rng(ev.res)) : ~Sub(CT, AsType(CT, r), Hat(ev.T)) /\ ~Sub(CT, Hat(ev.T), AsType(CT, r)) THEN "ImplicitTop"
-                ELSE IF TextualDiffers(CT, ev.T) \/ \E r \in Related(CT, ev.T, Rng(ev.res)) : TextualDiffers(CT, r) THEN "TextualSupertypes"
+                ELSE IF TextualDiffers(CT, Hat(ev.T)) \/ \E r \in Related(CT, ev.T, Rng(ev.res)) : TextualDiffers(CT, r) THEN "TextualSupertypes"
                 ELSE "plain">> : cl \in FindIrrelevantBad(CT, ev.T, Rng(ev.res), ev.saw_none)}
     [] ev.kind = "instantiate" ->
          UNION {{<<cl, InstShape(ev, ev.outs[o].args)>> : cl \in InstJudged(CT, ev, o)} : o \in DOMAIN ev.outs}
